@@ -1574,6 +1574,14 @@ where
         state: State,
         mut runtime: impl Runtime<T>,
     ) -> Result<()> {
+        // We already know our identity is down: either we left the cluster
+        // deliberately or we couldn't rejoin before. There's nothing to
+        // refute or react to anymore; only `change_identity` or
+        // `reuse_down_identity` bring this instance back.
+        if self.connection_state == ConnectionState::Undead {
+            return Ok(());
+        }
+
         match state {
             State::Suspect => {
                 let increase_incarnation = match self.incarnation.cmp(&incarnation) {
